@@ -104,6 +104,9 @@ func (vc *VC) runTop() {
 		v := fr.freshVal("fv."+fv.Name(), fv.Type())
 		fr.vals[fv] = v
 		fr.params[fv.Name()] = v
+		if _, ok := fv.Type().Underlying().(*types.Pointer); ok {
+			vc.assume("true", not(eq(v.T, "0"))) // a captured variable is a live cell
+		}
 	}
 	fr.entry = fr.st.clone()
 	env := fr.specEnvEntry()
@@ -209,6 +212,15 @@ func (vc *VC) runTop() {
 	if fc == nil {
 		return
 	}
+	if fc.RecoverGuard {
+		ok, why := recoverGuardOK(e, fn)
+		goal := "false"
+		if !ok {
+			goal = "true"
+		}
+		vc.obls = append(vc.obls, &Obl{Name: vc.uniq(relFuncName(fn) + "/recover-guard"), Kind: "recover-guard", Func: fn.String(), Pos: fr.pos(fn.Pos()), Props: fc.RecoverGuardProps,
+			Goal: goal, CmdIdx: len(vc.cmds), Src: "first deferred call is a recovering closure (contract `recovers`) and no call precedes it: " + why})
+	}
 	penv := fr.specEnvExit(results)
 	for i, c := range fc.Ensures {
 		t, err := fr.evalSpecBool(c.Expr, penv)
@@ -232,6 +244,41 @@ func (vc *VC) runTop() {
 	if fc.HasModifies {
 		vc.frameObligations(fr, fc, penv, exitReach)
 	}
+}
+
+// recoverGuardOK checks structurally that fn installs a recovering deferred closure before
+// anything that can panic: in the entry block, before the first call/go/send/panic, there is a
+// Defer of a closure whose contract says `recovers`, and the function has named results.
+func recoverGuardOK(e *Engine, fn *ssa.Function) (bool, string) {
+	if len(fn.Blocks) == 0 {
+		return false, "no body"
+	}
+	for _, in := range fn.Blocks[0].Instrs {
+		switch i := in.(type) {
+		case *ssa.Alloc, *ssa.MakeClosure, *ssa.DebugRef, *ssa.Store, *ssa.FieldAddr, *ssa.UnOp:
+			continue
+		case *ssa.Defer:
+			mc, ok := i.Call.Value.(*ssa.MakeClosure)
+			if !ok {
+				return false, "first defer is not a closure"
+			}
+			cf, _ := mc.Fn.(*ssa.Function)
+			if cf == nil {
+				return false, "first defer is not a closure"
+			}
+			fc := e.contractOf(cf)
+			if fc == nil || !fc.Recovers {
+				return false, "the deferred closure " + relFuncName(cf) + " has no `recovers` contract"
+			}
+			if fn.Recover == nil {
+				return false, "function has no recover block (named results required)"
+			}
+			return true, "ok: " + relFuncName(cf)
+		default:
+			return false, fmt.Sprintf("instruction %T precedes the recovering defer", in)
+		}
+	}
+	return false, "no defer in the entry block"
 }
 
 func (vc *VC) allProps(fc *FuncContract) []string {
@@ -451,6 +498,14 @@ func (fr *Frame) contractCall(fc *FuncContract, callee *ssa.Function, args []*Va
 				vars[p.Name()] = args[i]
 			}
 		}
+		if fr.curFv != nil {
+			for i, f := range callee.FreeVars {
+				if i < len(fr.curFv.Binds) {
+					vars[f.Name()] = fr.curFv.Binds[i]
+				}
+			}
+		}
+		fr.curFv = nil
 		cpkg = pkgOf(callee)
 	} else {
 		// interface method: self + positional names a0..an
